@@ -5853,10 +5853,11 @@ class Path(Shape, MutableSequence):
             if isinstance(segment, Move):
                 self._segments[index].end = Point(segment.end)
                 return
-        self._segments[index].end = (
-            Point(self._segments[0].end) if self._segments[0].end is not None else None
-        )
-        # If move is never found, just the end point of the first element. Unless that's not a thing.
+        for segment in self._segments[: index + 1]:
+            if segment.end is not None:
+                self._segments[index].end = Point(segment.end)
+                return
+        # If move is never found, just the first end point that exists. Unless that's not a thing.
 
     def _validate_connection(self, index, prefer_second=False):
         """
@@ -6083,10 +6084,11 @@ class Path(Shape, MutableSequence):
                 end_pos = segment.end
                 break
         if end_pos is None:
-            try:
-                end_pos = self._segments[0].end
-            except IndexError:
-                pass  # entire path is "z".
+            # No move: the first point that exists, as in validate_connections().
+            for segment in self._segments:
+                if segment.end is not None:
+                    end_pos = segment.end
+                    break
         return end_pos
 
     @property
@@ -6122,6 +6124,8 @@ class Path(Shape, MutableSequence):
         end_pos = points[0]
         if end_pos in ("z", "Z"):
             end_pos = self.z_point
+            if end_pos is None:
+                raise ValueError("close requires an initial point")
         self.append(Move(start_pos, end_pos, relative=relative))
         if len(points) > 1:
             self.line(*points[1:], relative=relative)
@@ -6133,6 +6137,8 @@ class Path(Shape, MutableSequence):
             end_pos = points[index]
             if end_pos in ("z", "Z"):
                 end_pos = self.z_point
+                if end_pos is None:
+                    raise ValueError("close requires an initial point")
             self.append(Line(start_pos, end_pos, relative=relative))
         return self
 
